@@ -320,9 +320,14 @@ def apply_rubber_band(molecule, selector,
 
     coordinates = np.stack(coordinates)
     if np.any(np.isnan(coordinates)):
+        # Molecules carry their moltype in `meta`, not as an attribute.
+        try:
+            moltype = molecule.moltype
+        except AttributeError:
+            moltype = molecule.meta.get('moltype')
         LOGGER.warning("Found nan coordinates in molecule {}. "
                        "Will not generate an EN for it. ",
-                       molecule.moltype,
+                       moltype,
                        type='unmapped-atom')
         return
 
